@@ -141,11 +141,11 @@ void Runner::exec_op(Thread *t, int idx) {
       std::vector<uint8_t> buf(n ? n : 1);
       uint64_t base = h ? h->wr_off : 0;
       for (size_t i = 0; i < n; i++) buf[i] = K->byte_at(1000 + op.h, 0, base + i);
-      if (h) h->busy++;
+      if (h) { h->busy++; h->wr_inflight = n; }
       api_begin(t, idx, op.h, expect_uid);
       r = api->write(hp, op.b ? nullptr : buf.data(), n);
       api_end(t);
-      if (h) h->busy--;
+      if (h) { h->busy--; h->wr_inflight = 0; }
       finish();
       long long v = res.ret;
       tuple(OP_WRITE, (uint64_t) st0, (uint64_t) (v < 0 ? -v : 0), (uint64_t) (h && h->open_[0]));
@@ -187,13 +187,14 @@ void Runner::exec_op(Thread *t, int idx) {
       if (!op.c) { once(); return; }
       {
         uint64_t total = (uint64_t) op.a, done = 0;
-        for (int iter = 0; iter < 20000 && done < total; iter++) {
+        int stalls = 0;
+        for (int iter = 0; iter < 20000 && done < total && stalls < 300; iter++) {
           uint64_t chunk = op.d > 0 && (uint64_t) op.d < total - done ? (uint64_t) op.d : total - done;
           n_override = (int64_t) chunk;
           once();
           long long v = res.ret;
-          if (v > 0) { done += (uint64_t) v; continue; }
-          if (v == C.EWOULDBLOCK_ || v == -EINTR) { t->op = idx; K->park(t, never_ready, K->now_ns + 1000000, K_sleep); t->op = -1; continue; }
+          if (v > 0) { done += (uint64_t) v; stalls = 0; continue; }
+          if (v == C.EWOULDBLOCK_ || v == -EINTR) { stalls++; t->op = idx; K->park(t, never_ready, K->now_ns + 1000000, K_sleep); t->op = -1; continue; }
           break;
         }
         res.bytes = done;
@@ -201,10 +202,12 @@ void Runner::exec_op(Thread *t, int idx) {
       return;
     }
     case OP_READ: {
+      std::vector<uint8_t> rbuf;
       auto once = [&]() {
       int stream = (int) op.a;
       size_t n = (size_t) op.b;
-      std::vector<uint8_t> buf(n ? n : 1);
+      if (rbuf.size() < (n ? n : 1)) rbuf.resize(n ? n : 1);
+      std::vector<uint8_t> &buf = rbuf;
       if (h) h->busy++;
       api_begin(t, idx, op.h, expect_uid);
       r = api->read(hp, stream, buf.data(), n);
@@ -259,12 +262,13 @@ void Runner::exec_op(Thread *t, int idx) {
       {
         uint64_t total = 0;
         int maxit = op.d > 0 ? (int) op.d : 20000;
-        for (int iter = 0; iter < maxit; iter++) {
+        int stalls = 0;
+        for (int iter = 0; iter < maxit && stalls < 300; iter++) {
           once();
           long long v = res.ret;
-          if (v > 0) { total += (uint64_t) v; continue; }
+          if (v > 0) { total += (uint64_t) v; stalls = 0; continue; }
           if (v == 0 && op.b == 0) break;
-          if (v == C.EWOULDBLOCK_ || v == -EINTR) { t->op = idx; K->park(t, never_ready, K->now_ns + 1000000, K_sleep); t->op = -1; continue; }
+          if (v == C.EWOULDBLOCK_ || v == -EINTR) { stalls++; t->op = idx; K->park(t, never_ready, K->now_ns + 1000000, K_sleep); t->op = -1; continue; }
           break;
         }
         res.bytes = total;
@@ -373,7 +377,7 @@ void Runner::exec_op(Thread *t, int idx) {
       for (size_t fd = 0; fd < K->caller->fds.size(); fd++) {
         FdEnt &e = K->caller->fds[fd];
         if (e.ofd && e.owner == OWN_LIB && e.made_handle == op.h)
-          viol("C05", "descriptor-leak", fmt("made-by=%s/at=destroy", e.made_op >= 0 ? op_name[plan.ops[(size_t) e.made_op].kind] : "?"),
+          viol("C05", "descriptor-leak", fmt("made-by=%s/at=destroy/%s", e.made_op >= 0 ? op_name[plan.ops[(size_t) e.made_op].kind] : "?", fault_tag(e.made_op).c_str()),
                fmt("descriptor %zu opened for this handle in op %d is still open after destroy", fd, e.made_op), idx);
       }
       if (c && c->st == Proc::ZOMBIE && h->status_known)
